@@ -108,7 +108,7 @@ fn plan_for(property: &str, tier: &str, seed: u64, workers: usize) -> Result<Pla
             let m = miri_runs.unwrap_or(if thorough { 96 } else { 0 });
             if m > 0 {
                 batches.push(miri("miri", m, 16));
-                batches.push(miri("buf", m, 16));
+                batches.push(miri("buf-tiny", m, 16));
             }
             Ok(Plan {
                 level: "exploration",
